@@ -160,6 +160,8 @@ pub fn vx_drain_incl(v: &mut Vec<usize>, a: usize, b: usize) -> (r: Vec<usize>)
         r@ == old(v)@.subrange(a as int, b as int + 1)
 { v.drain(a..=b).collect() }
 
+//@@include c01_green/iface.rs
+
 //@@include c01_green/specs.rs
 
 //@@include c01_green/lemmas.rs
